@@ -412,6 +412,12 @@ func (m *Machine) fsIntrinsic(name string, args []Val) (Val, bool) {
 		fs := m.needFS()
 		p := m.goString(args[0], name)
 		m.step(true, "open "+fileClass(p))
+		if m.faultOpen > 0 {
+			m.faultOpen--
+			if m.faultOpen == 0 {
+				return Tuple{nil, mkErr("emfile", "open "+p+": too many open files")}, true
+			}
+		}
 		ino := fs.dir[p]
 		if ino == nil {
 			return Tuple{nil, mkErr("notexist", "open "+p+": no such file or directory")}, true
